@@ -42,7 +42,12 @@ RULE = (
     "jump-diffusions) and strikes F*[max(0.5,e^-h), min(1.5,e^h)], h = 0.2*(b-a)/2, on uniform grids of 11/15/21 points. "
     "Also: the same families at the edge of their declared ranges (zero jump intensity = Black-Scholes limit, HEM p = 1), every "
     "model freshly built and rebuilt through a re-initialised parameter object, one pricer object through histories of maturities "
-    "next to a second pricer of another model, and synthetic densities that are exactly an N-term cosine polynomial on [a,b] "
+    "next to a second pricer of another model, EVERY case additionally through a second construction history by assignment on the "
+    "live object (the model is built with other r and / or d, >= 0.01 away, which are then assigned, in either order, 30% via "
+    "an intermediate value, with a COSPricer built before / between / after the assignments and in 60% used before them, 30% "
+    "on a model that also went through the re-initialised parameter object; COS / FFT / closed form of the live model judged "
+    "against df, F of the final values and against the freshly built model; 3 more cases per run assign spot), "
+    "and synthetic densities that are exactly an N-term cosine polynomial on [a,b] "
     "(N 2..7, n = N + {0,1,9,40}, random coefficients, interval (-lo, hi) with lo, hi in [0.3,1.5]) for the replay of the exactness theorems. "
     "Measured once on the unchanged tree (900 draws, seeds 0..29): inside the box doubling n and/or l changes call/spot "
     "by <= 3.6e-11 and digitals by <= 1.1e-12 (< 1e-9). Outside the box only the exact probes run (parity against the "
@@ -76,6 +81,16 @@ ASSUMPTIONS = [
     "log-density >= -1e-8 [5.5e-13], mass 1 +- 1e-6 [2.5e-11]; digital/df vs tail mass 1e-6 [1.8e-8]; COS-FFT 2e-7*spot [1.3e-8*spot]; "
     "COS-BS 1e-10*spot [1e-15*spot]; VG-CGMY 1e-9*spot [6e-11*spot]; vector-scalar 1e-11*spot [0]; model correspondence 2^-40 of the "
     "cancellation-aware scale; exact-density replay 1e-11 of the sum of absolute terms [4e-15]; zero-intensity = BS 1e-9*spot [1e-13]",
+    "live-assignment histories: r and d are validated settable properties that the unchanged tree reads at call time everywhere "
+    "(measured: re-set model == freshly built model bit for bit for COS call / put / digital / density, FFT, closed form, 5 families); "
+    "a COSPricer keeps only a reference to its model, so one built BEFORE an assignment is judged like one built after; an "
+    "FFTPricer copies r and the log-spot at construction, so only FFTPricers built after the last assignment are generated "
+    "(earlier ones are a don't-care).  Parameters are not assigned on a live model: the library's own idiom (model/utils.py "
+    "calibration) rebuilds the model from a re-initialised parameter object, which is what zoo.reinitialised does.  spot is "
+    "half cached (log_spot): known finding C18-spot-assignment-stale-log-spot-*, generated separately from the r / d histories. "
+    "tolerances: live parity 1e-10*spot, live == fresh 1e-10*spot (density 1e-9 relative to its maximum) [0 observed], others as above",
+    "density quadrature (harness side): a failing mass / tail verdict at 2049 (4097) points is re-evaluated at 4x the points, up to "
+    "8193+, before it is reported (HEM sigma = 0.008, T = 0.12: 1.8e-6 at 2049 points, 9e-14 at 8193)",
     "the arguments the closed form hands to norm.cdf are observed by replacing the name `norm` inside "
     "rpylib.numerical.closedform.cfblackscholes by a recording proxy for the duration of one call",
 ]
@@ -106,7 +121,46 @@ def draw_case(rng, fam, y_branch=None):
     d = round(rng.uniform(0, 0.05), 3)
     T = round(rng.uniform(0.1, 3), 2)
     m = rng.choice([11, 15, 21])
-    return dict(kind="main", fam=fam, params=params, spot=spot, r=r, d=d, T=T, m=m, hist=draw_history(rng, T))
+    case = dict(kind="main", fam=fam, params=params, spot=spot, r=r, d=d, T=T, m=m, hist=draw_history(rng, T))
+    case["live"] = draw_live(rng, case)
+    return case
+
+
+# market data that are validated, SETTABLE properties of ExponentialOfLevyModel (tools/parameter.py `positive`).  Measured on the
+# unchanged tree: `r` and `d` are read at call time by everything (characteristic function, mean, df, drift, closed form); `spot`
+# is half cached (`log_spot` is computed once in __init__), see known finding C18-spot-assignment-stale-log-spot: the histories
+# that must pass assign r / d only, the spot histories are generated separately (`draw_live(..., attrs=["spot"])`).
+LIVE_RANGE = dict(r=(0.0, 0.08), d=(0.0, 0.05))
+
+
+def draw_live(rng, case, attrs=None):
+    """a second construction history of the SAME model: built with other market data, then the public settable attributes are
+    assigned their target values on the live object (some of them twice: via an intermediate value).  `build_at` is the
+    position in the list of assignments at which an 'early' COSPricer is built on the model (0 = before any assignment,
+    len(steps) = after all of them); `use_early` prices with it (and asks the model for mean / df / drift) right then, so
+    that anything computed lazily on first use holds the old values; the 'late' pricers are always built after the last
+    assignment.  `reinit`: the starting model additionally goes through zoo.reinitialised (other parameters first)."""
+    if attrs is None:
+        attrs = rng.choice([["r"], ["d"], ["r", "d"], ["d", "r"], ["r", "d"]])
+    start, steps = {}, []
+    for a in attrs:
+        tgt = case[a]
+        if a == "spot":
+            other = lambda: round(tgt * rng.choice([0.7, 0.85, 1.15, 1.4]), 2)
+        else:
+            lo, hi = LIVE_RANGE[a]
+            other = lambda: round(rng.uniform(lo, hi), 3)
+        vals = []
+        while len(vals) < 2:
+            v = other()
+            if abs(v - tgt) >= (0.01 if a != "spot" else 1.0):
+                vals.append(v)
+        start[a] = vals[0]
+        if rng.random() < 0.3:
+            steps.append([a, vals[1]])
+        steps.append([a, tgt])
+    return dict(start=start, steps=steps, build_at=rng.randint(0, len(steps)), use_early=rng.random() < 0.6,
+                reinit=rng.random() < 0.3)
 
 
 REUSE_OPS = ["put", "call", "digital", "forward", "density", "price_put", "butterfly"]
@@ -247,15 +301,24 @@ def shape_probes(ctx, B, call, put, dig):
         ctx.fail("oracle", "c18.cos.digital", case, {"what": "digital outside [0, df] or increasing", "K": K, "digital": dig, "df": df}, cls=B.cls)
 
 
-def density_probe(ctx, B, dig):
+def density_probe(ctx, B, dig, npts=None):
+    """mass / sign of the implied log-density and digital/df = its tail mass, by quadrature on a uniform grid over [a,b].  The
+    quadrature error is the harness' own (a sigma ~ 0 jump-diffusion at a short maturity has a diffusion peak narrower than
+    a few grid steps: measured 1.8e-6 at 2049 points, 9e-14 at 8193): a failing verdict is only issued at the finest grid"""
     case, cos, T = B.case, B.cos, B.T
     x0 = math.log(B.spot)
-    npts = 4097 if ctx.thorough else 2049
+    first = npts is None
+    if first:
+        npts = 4097 if ctx.thorough else 2049
+    final = npts >= 8193
     u = np.linspace(x0 + B.a, x0 + B.b, npts)
     vals = np.concatenate([cos.density_log(T, u[i:i + 512]) for i in range(0, npts, 512)])
     du = u[1] - u[0]
     mass = float(np.sum(vals) * du - 0.5 * du * (vals[0] + vals[-1]))
-    ctx.count("c18.cos.density", case)
+    if first:
+        ctx.count("c18.cos.density", case)
+    if not final and (np.min(vals) < -1e-8 or abs(mass - 1) > 1e-6):
+        return density_probe(ctx, B, dig, 4 * (npts - 1) + 1)
     note("cos.density_min", max(-np.min(vals), 0), 1e-8)
     note("cos.density_mass", abs(mass - 1), 1e-6)
     if np.min(vals) < -1e-8 or abs(mass - 1) > 1e-6:
@@ -276,6 +339,8 @@ def density_probe(ctx, B, dig):
     dj = cos.digital(Kj, T) / B.df
     tails = np.array([simpson(vals[j:], dx=du) for j in js])
     err = float(np.max(np.abs(tails - dj)))
+    if not final and err > 1e-6:
+        return density_probe(ctx, B, dig, 4 * (npts - 1) + 1)
     note("cos.digital_tail", err, 1e-6)
     if err > 1e-6:
         ctx.fail("oracle", "c18.cos.digital_probability", case, {"what": "digital/df != tail mass of the implied density",
@@ -656,6 +721,117 @@ def reuse_probe(ctx, B, heavy):
                 return
 
 
+def live_probe(ctx, B, call, put, fwdc, dig, heavy):
+    """second-history probe: the property speaks about 'every exponential model', and a model is its market data and
+    parameters, however the object got them.  The model of the case is reached a second way: constructed with OTHER values of
+    its public settable attributes, which are then assigned on the live object (draw_live).  Judged, against references that
+    the harness computes from the FINAL values only (df = exp(-rT), F = spot*exp((r-d)T)) and against the freshly built model
+    B of the same final values:
+      * every COSPricer holding the live model (built before, between or after the assignments: COSPricer keeps no market
+        data of its own) — parity / forward, no-arbitrage shape in the box, digital in [0, df] decreasing, equal to the fresh
+        model's prices, density, scalar strike;
+      * the FFTPricer built AFTER the last assignment — parity, COS ~ FFT (an FFTPricer built earlier copies r and log-spot at
+        construction: a don't-care, not generated);
+      * the Black-Scholes closed form of the live model — equal to an rpylib-independent formula at the final values, COS, FFT.
+    Each oracle fails under its own probe name with cls.oracle / cls.spot_assigned so that a known finding can name it."""
+    case, T, K, spot, df, F = B.case, B.T, B.K, B.spot, B.df, B.F
+    live = case["live"]
+    attrs = [a for a in ("r", "d", "spot") if a in live["start"]]
+    params = dict(case["params"])
+    if live.get("reinit") and case["fam"] != "bs":
+        params[zoo.REINIT] = True
+    kw = dict(spot=case["spot"], r=case["r"], d=case["d"])
+    kw.update(live["start"])
+    m = zoo.make_exp(case["fam"], params, **kw)
+    cls = dict(B.cls, spot_assigned="spot" in attrs, assigned="+".join(attrs))
+    early = None
+    steps = live["steps"]
+    for n in range(len(steps) + 1):
+        if n == live["build_at"]:
+            early = COSPricer(m)
+            if live["use_early"]:
+                early.call(K, T), early.digital(K, T), early.density_log(T, np.array([math.log(spot)]))
+                m.mean(T), m.df(T), m.drift()
+                if case["fam"] == "bs":
+                    m.closed_form.call(K, T)
+        if n < len(steps):
+            setattr(m, steps[n][0], steps[n][1])
+    late = COSPricer(m)
+    ctx.count("c18.live.assigned", case, nontrivial=B.inbox and len(K) >= 11,
+              branch=f"{case['fam']}:{cls['assigned']}:early@{live['build_at']}/{len(steps)}" + (":used" if live["use_early"] else ""))
+    if not (m.r == case["r"] and m.d == case["d"] and m.spot == case["spot"]):
+        ctx.fail("oracle", "c18.live.parity", case, {"what": "the assigned attributes do not read back", "r": m.r, "d": m.d, "spot": m.spot}, cls=cls)
+        return
+    ref = df * (F - K)
+    u = math.log(spot) + np.linspace(B.a, B.b, 7)[1:-1]
+    dens_fresh = np.asarray(B.cos.density_log(T, u))
+    i0 = len(K) // 2
+
+    def fail(probe, oracle, what, **detail):
+        ctx.fail("oracle", probe, case, dict({"what": what, "history": live, "K": K, "df": df, "F": F}, **detail), cls=dict(cls, oracle=oracle))
+
+    got = None
+    for name, cos in (("late", late), ("early", early)):
+        c, p, f, g = (np.asarray(x) for x in (cos.call(K, T), cos.put(K, T), cos.forward(K, T), cos.digital(K, T)))
+        if name == "late":
+            got = (c, p, g)
+        who = f"COSPricer built {'after the last' if name == 'late' else 'before the %d-th' % (live['build_at'] + 1)} assignment"
+        err = max(float(np.max(np.abs(c - p - ref))), float(np.max(np.abs(f - ref))))
+        note("live.parity", err, 1e-10 * spot)
+        if not err <= 1e-10 * spot:
+            fail("c18.live.parity", "parity", f"{who}: call - put or forward != df*(F-K) with df, F of the model's CURRENT r, d, spot",
+                 call=c, put=p, forward=f, expected=ref)
+        err = max(float(np.max(np.abs(c - call))), float(np.max(np.abs(p - put))), spot * float(np.max(np.abs(g - dig))))
+        sc = float(np.asarray(cos.call(float(K[i0]), T)).reshape(-1)[0])
+        err = max(err, abs(sc - float(call[i0])))
+        note("live.fresh", err, 1e-10 * spot)
+        if not err <= 1e-10 * spot:
+            fail("c18.live.fresh_model", "prices", f"{who}: prices differ from those of a model freshly built with the same final values",
+                 call=c, fresh_call=call, put=p, fresh_put=put, digital=g, fresh_digital=dig, scalar_call=sc)
+        dl = np.asarray(cos.density_log(T, u))
+        err = float(np.max(np.abs(dl - dens_fresh))) if np.all(np.isfinite(dl)) else float("inf")
+        if not err <= 1e-9 * max(1.0, float(np.max(np.abs(dens_fresh)))):
+            fail("c18.live.fresh_model", "density", f"{who}: implied log-density differs from that of a model freshly built with the same final values",
+                 u=u, density_log=dl, fresh=dens_fresh)
+        if B.inbox:
+            bad = shape_violation(K, c, p, df, F, spot)
+            if bad is None and (np.max(-g) > 1e-9 or np.max(g - df) > 1e-9 or np.max(np.diff(g)) > 1e-9):
+                bad = "digital outside [0, df] or increasing"
+            if bad:
+                fail("c18.live.shape", "shape", f"{who}: {bad}", call=c, put=p, digital=g)
+    c, p, g = got
+    fc = None
+    if heavy and B.fftbox:
+        fft = FFTPricer(m)
+        try:
+            fc, fp = np.asarray(fft.call(K, T)), np.asarray(fft.put(K, T))
+        except ValueError as e:
+            if "sufficient condition" not in str(e):
+                raise
+        if fc is not None:
+            err = float(np.max(np.abs(fc - fp - ref)))
+            if not err <= 1e-10 * spot:
+                fail("c18.live.fft_parity", "fft_parity", "FFTPricer built after the last assignment: call - put != df*(F-K) of the CURRENT r, d, spot",
+                     call=fc, put=fp, expected=ref)
+            err = float(np.max(np.abs(fc - c)))
+            note("live.cos_fft", err, FFT_TOL * spot)
+            if not err <= FFT_TOL * spot:
+                fail("c18.live.cos_fft", "cos_fft", "COS and FFT pricers built after the last assignment differ", cos=c, fft=fc)
+    if case["fam"] == "bs":
+        cf = m.closed_form
+        cc, cp, cg, cfw = (np.asarray(x) for x in (cf.call(K, T), cf.put(K, T), cf.digital(K, T), cf.forward(K, T)))
+        rc, rg = _bs_call_ref(spot, K, case["r"], case["d"], case["params"]["sigma"], T)
+        err = max(float(np.max(np.abs(cc - rc))), float(np.max(np.abs(cc - cp - ref))), float(np.max(np.abs(cfw - ref))), spot * float(np.max(np.abs(cg - rg))))
+        if not err <= 1e-10 * spot:
+            fail("c18.live.closed_form", "cf_reference", "closed form of the live model != Black-Scholes formula / parity at the final r, d, spot",
+                 cf_call=cc, cf_put=cp, cf_digital=cg, reference_call=rc)
+        if B.inbox and not (np.max(np.abs(cc - c)) <= 1e-10 * spot and np.max(np.abs(cp - p)) <= 1e-10 * spot and np.max(np.abs(cg - g)) <= 1e-9):
+            fail("c18.live.closed_form", "cf_cos", "closed form of the live model != COS on the same live model", cf_call=cc, cos_call=c,
+                 cf_digital=cg, cos_digital=g)
+        if fc is not None and not np.max(np.abs(cc - fc)) <= FFT_TOL * spot:
+            fail("c18.live.closed_form", "cf_fft", "closed form of the live model != FFT on the same live model", cf_call=cc, fft_call=fc)
+
+
 # ---------------------------------------------------------------------------------------------------- correspondence (C)
 def composition_corr(ctx, B, call, put, fwdc, dig):
     case, cos, T, K = B.case, B.cos, B.T, B.K
@@ -869,6 +1045,8 @@ def exact_density_probe(ctx, case):
 def run_case(ctx, case, rng, heavy=True):
     if "hist" not in case:
         case["hist"] = draw_history(rng, case["T"])
+    if "live" not in case:
+        case["live"] = draw_live(rng, case)
     B = Built(case)
     ctx.branches[f"box:{case['fam']}:{'in' if B.inbox else 'out'}"] += 1
     if B.inbox and not B.fftbox:
@@ -878,6 +1056,7 @@ def run_case(ctx, case, rng, heavy=True):
     coefficient_corr(ctx, B, rng)
     cdf_probe(ctx, B, dig)
     reuse_probe(ctx, B, heavy)
+    live_probe(ctx, B, call, put, fwdc, dig, heavy)
     fc = fft_probes(ctx, B, call, put, heavy) if heavy or B.inbox else None
     if not B.inbox:
         return B
@@ -925,6 +1104,14 @@ def run(ctx):
                 case["params"]["sigma"] = max(case["params"]["sigma"], 0.05)
             case["edge"] = True
             run_case(ctx, case, rng, heavy=False)
+    # the third settable market datum: `spot` assigned on a live model (alone, so that these histories never shadow the r / d
+    # ones).  COS call / put / digital and the closed form read it at call time; known finding C18-spot-assignment-stale-log-spot
+    fams = FAMS[1:]
+    rng.shuffle(fams)
+    for j, fam in enumerate(["bs"] + fams[:ctx.n(2, 4)]):
+        case = draw_case(rng, fam, y_branch=1.5 if fam == "cgmy" else None)
+        case["live"] = draw_live(rng, case, attrs=["spot"])
+        run_case(ctx, case, rng, heavy=(j <= 1) or ctx.thorough)
     for k, (ratio, val) in sorted(WORST.items()):
         ctx.notes.append(f"worst observed {k}: {val:.3e} = {ratio:.3g} x tolerance")
 
